@@ -4,6 +4,7 @@ import (
 	"encoding/json"
 	"errors"
 	"fmt"
+	"math/rand"
 	"os"
 	"path/filepath"
 	"regexp"
@@ -482,6 +483,22 @@ func runC05(cfg Config, r *Result) {
 		progs = append(progs, s)
 	}
 	budget := cfg.N(14000, 400000)
+	// return-path trees first (they are cheap and must not be starved by the budget)
+	rtValid, rtMut := c05ReturnTreeMutants(cfg, cfg.N(150, 3000))
+	for _, p := range rtValid {
+		if _, err := safeParse(p); err != nil {
+			// not this property's concern (C04/C02 decide what is accepted); recorded so that the evidence shows it
+			r.Dist("base:return-tree-rejected")
+			if r.Distribution["base:return-tree-rejected"] == 1 {
+				r.Note("first rejected return-tree base: %s\n%s", truncKey(err.Error(), 200), p)
+			}
+			continue
+		}
+		r.Dist("base:return-tree-accepted")
+	}
+	for _, m := range rtMut {
+		c05Check(c, m, "")
+	}
 	for _, p := range progs {
 		if _, err := safeParse(p); err != nil {
 			r.Dist("base:rejected")
@@ -506,3 +523,125 @@ var c05Seeds = []string{
 }
 
 func init() { register("C05", runC05) }
+
+// ---- return-path trees: "missing return" and "unreachable code" at every position where the rule applies ----
+//
+// A typed function whose body is a random tree of terminating blocks (a block ends in `return v` or in an
+// if / else-if* / else chain all of whose branches are terminating blocks, nested to any depth, with non-terminating
+// statements - prints, an if without else that returns, a while loop that returns - in front) is accepted.
+// One edit at one position of the tree breaks exactly one rule:
+//
+//	missing-return:   one terminal `return` leaf becomes a print, or the `else` of one terminal chain is dropped;
+//	unreachable-code: a statement is appended right after one terminal `return` leaf or right after one terminal chain.
+type rtStmt struct {
+	kind    int // 0 print, 1 return, 2 if-chain, 3 while-with-return, 4 if-without-else-with-return
+	blocks  [][]*rtStmt
+	hasElse bool
+	mut     int // 0 none, 1 return->print, 2 else dropped, 3 statement appended after this one
+}
+
+func rtGenBlock(rng *rand.Rand, depth int) []*rtStmt {
+	var b []*rtStmt
+	for i := rng.Intn(3); i > 0; i-- {
+		b = append(b, &rtStmt{kind: []int{0, 0, 3, 4}[rng.Intn(4)]})
+	}
+	if depth == 0 || rng.Intn(3) == 0 {
+		return append(b, &rtStmt{kind: 1})
+	}
+	ch := &rtStmt{kind: 2, hasElse: true}
+	for i := 2 + rng.Intn(3); i > 0; i-- { // if + 0..2 else-if + else
+		ch.blocks = append(ch.blocks, rtGenBlock(rng, depth-1))
+	}
+	return append(b, ch)
+}
+
+// rtTerminals lists the statements at which an edit applies: terminal returns and terminal chains.
+func rtTerminals(b []*rtStmt, out *[]*rtStmt) {
+	last := b[len(b)-1]
+	*out = append(*out, last)
+	if last.kind == 2 {
+		for _, bb := range last.blocks {
+			rtTerminals(bb, out)
+		}
+	}
+}
+
+func rtRender(sb *strings.Builder, b []*rtStmt, ind string, val string, ctr *int) {
+	for _, s := range b {
+		*ctr++
+		switch s.kind {
+		case 0:
+			fmt.Fprintf(sb, "%sprint \"p%d\" n\n", ind, *ctr)
+		case 1:
+			if s.mut == 1 {
+				fmt.Fprintf(sb, "%sprint \"fall%d\" n\n", ind, *ctr)
+			} else {
+				fmt.Fprintf(sb, "%sreturn %s\n", ind, val)
+			}
+		case 3:
+			fmt.Fprintf(sb, "%swhile n > %d\n%s    return %s\n%send\n", ind, 1000+*ctr, ind, val, ind)
+		case 4:
+			fmt.Fprintf(sb, "%sif n > %d\n%s    return %s\n%send\n", ind, 1000+*ctr, ind, val, ind)
+		case 2:
+			for i, bb := range s.blocks {
+				switch {
+				case i == 0:
+					fmt.Fprintf(sb, "%sif n < %d\n", ind, -*ctr)
+				case i == len(s.blocks)-1 && s.mut != 2:
+					fmt.Fprintf(sb, "%selse\n", ind)
+				case i == len(s.blocks)-1:
+					fmt.Fprintf(sb, "%selse if n == %d\n", ind, 500+*ctr) // the else became one more else-if
+				default:
+					fmt.Fprintf(sb, "%selse if n == %d\n", ind, *ctr*10+i)
+				}
+				rtRender(sb, bb, ind+"    ", val, ctr)
+			}
+			fmt.Fprintf(sb, "%send\n", ind)
+		}
+		if s.mut == 3 {
+			fmt.Fprintf(sb, "%sprint \"after%d\"\n", ind, *ctr)
+		}
+	}
+}
+
+func c05ReturnTreeMutants(cfg Config, n int) (valid []string, out []c05Mutant) {
+	rng := cfg.Rng
+	for i := 0; i < n; i++ {
+		rt := []string{"num", "string", "[]num", "bool"}[rng.Intn(4)]
+		val := map[string]string{"num": "n", "string": `"s"`, "[]num": "[n]", "bool": "n > 0"}[rt]
+		body := rtGenBlock(rng, 1+rng.Intn(3))
+		render := func() string {
+			var sb strings.Builder
+			ctr := 0
+			sb.WriteString("func f:" + rt + " n:num\n    print \"enter\" n\n")
+			rtRender(&sb, body, "    ", val, &ctr)
+			sb.WriteString("end\nprint \"start\"\nprint (f 1) (f -1)\n")
+			return sb.String()
+		}
+		valid = append(valid, render())
+		var terms []*rtStmt
+		rtTerminals(body, &terms)
+		picks := terms
+		if cfg.Tier != "thorough" && len(picks) > 4 {
+			rng.Shuffle(len(picks), func(a, b int) { picks[a], picks[b] = picks[b], picks[a] })
+			picks = picks[:4]
+		}
+		for _, t := range picks {
+			pos := "terminal-return"
+			if t.kind == 2 {
+				pos = fmt.Sprintf("terminal-chain-of-%d", len(t.blocks))
+			}
+			if t.kind == 1 {
+				t.mut = 1
+				out = append(out, c05Mutant{Src: render(), Rule: "missing-return", Pos: "tree|" + pos})
+			} else {
+				t.mut = 2
+				out = append(out, c05Mutant{Src: render(), Rule: "missing-return", Pos: "tree|else-dropped|" + pos})
+			}
+			t.mut = 3
+			out = append(out, c05Mutant{Src: render(), Rule: "unreachable-code", Pos: "tree|after|" + pos})
+			t.mut = 0
+		}
+	}
+	return valid, out
+}
